@@ -9,7 +9,7 @@ META = {
     "technique": "TLA+ spec (Dates: proleptic Gregorian calendar, PDF date grammar) model-checked by TLC; TLC-generated "
                  "(instant, offset, string) cases replayed into lopdf's chrono/jiff/time conversions; recorded lopdf "
                  "conversions judged by Trace_Dates",
-    "text": "TLC checks that Parse(Fmt(i, off)) = (i, off) (and the Z, minute-precision and date-only forms) for all 2879 "
+    "text": "Domain: instants of (UTC) years 0001-9999 x offsets -23:59..+23:59. TLC checks that Parse(Fmt(i, off)) = (i, off) (and the Z, minute-precision and date-only forms) for all 2879 "
             "offsets -23:59..+23:59 at fixed instants and for boundary instants (years 0001, 0999/1000, leap days, 1970, "
             "2038, 9999) x boundary offsets, that the closed-form civil calendar equals 'day 0 = 0001-01-01, then the next "
             "day', and that the steps of src/datetime.rs (strftime with %:z', the backwards scan of convert_utc_offset, the "
@@ -17,7 +17,9 @@ META = {
             "through Object::from(DateTime<Local>|DateTime<Utc>|Zoned|Timestamp|OffsetDateTime) and every produced string "
             "(and the spec's own strings) through as_datetime().try_into() of all three backends; results must equal the "
             "declarative layer's. Seeded random (instant, offset) pairs over the whole domain are converted by lopdf and "
-            "judged record by record by TLC. History and zones with rules: TLC enumerates sequences of instants around "
+            "judged record by record by TLC. The first and last second of the domain are swept over the offsets (wall clock "
+            "in years 0000 and 10000; thorough: all 2879), and marked cases are parsed again in processes that see no usable "
+            "time zone database (TZDIR). History and zones with rules: TLC enumerates sequences of instants around "
             "both clock changes of zones with a POSIX daylight-saving rule (northern, southern, west of UTC, half-hour "
             "shifts, odd change times, fixed) and checks that the string is a function of the instant and the rule only "
             "(the design 'offset suffix cached by the first call' is refuted by TLC); each sequence is replayed in ONE "
@@ -32,12 +34,23 @@ META = {
 
 UTC_TYPES = ("chrono_utc", "jiff_timestamp")
 ASSUMPTIONS = [
-    "Domain: UTC instant and local wall-clock date both in years 0001-9999, offset -23:59..+23:59 (minutes).",
+    "Domain, from the statement's quantifier: the INSTANT (its UTC date) lies in years 0001-9999, the offset in "
+    "-23:59..+23:59. The wall clock may then fall in year 0000 (four digits: judged like any other pair, must round-trip) "
+    "or in year 10000 (last 23:59 of year 9999 at a positive offset): no PDF date string denotes such a pair, demanded is "
+    "only that the produced string is a date string of the same instant (Trace_Dates!JudgeFmt, fmt-inexpressible).",
     "chrono DateTime<Local> is driven by running each offset in a child process with TZ=XXX<posix offset>; if Local does "
     "not report the requested offset the conversion is skipped (counted as env_skipped), never judged.",
-    "All parsing runs in a child whose zone (UTC+07:17 / UTC-03:11) differs from the offset of every parsed string; a jiff "
-    "parse that fails while jiff cannot look up 'GMT'/'UTC' (no tz database on the machine) is skipped as env_skipped.",
-    "A value the backend's own type cannot represent (jiff Timestamp/Zoned after 9999-12-30T22:00:00Z) is skipped (na_skipped).",
+    "All parsing runs in a child whose zone (UTC+07:17 / UTC-03:11) differs from the offset of every parsed string. The "
+    "time zone database is a dimension of its own: marked cases are parsed again with TZ unset and TZDIR pointing at an "
+    "empty directory (jiff falls back to the machine's database) and at a directory with one entry that is no zone (no "
+    "GMT entry), every reader x every form, judged exactly (signature suffix .tzdb-empty / .tzdb-one). Only on the "
+    "machine's own database is a jiff failure with a missing GMT entry skipped (env_skipped), so that the result does not "
+    "depend on the host.",
+    "A value the backend's own type cannot represent is skipped (na_skipped): jiff Timestamp/Zoned end at "
+    "9999-12-30T22:00:00Z (limit asked from jiff at run time), so for the last 26 hours of year 9999 the jiff writers cannot "
+    "be driven and the jiff reader refuses the strings chrono and time write (and D:99991231). These instants are inside "
+    "the worded quantifier, but no code in lopdf can return a jiff::Zoned for them: a limit of the backend type, reported "
+    "here, not counted as a lopdf violation. Likewise jiff and time cannot hold a wall clock in year 10000.",
     "Zones with a rule: TZ is a POSIX rule string (no tz database needed); a conversion is judged only when the value "
     "handed to lopdf has the offset the spec computes from the rule for that instant (chrono's / jiff's own zone "
     "arithmetic is not under test; counted as zone_env_skipped, vacuity error above 5%); time has no local-zone path in "
@@ -56,14 +69,16 @@ def b2s(bs):
 
 def signature(kind, cls):
     """Narrow class of a failing case.  cls comes from the spec-level classifier (OffClass / YearClass / form)."""
-    if kind in ("fmt-mismatch", "fmt-panic"):
+    if kind in ("fmt-mismatch", "fmt-panic", "fmt-inexpressible"):
         return "C18:%s.%s.%s.%s" % (kind, cls[0], cls[1], cls[2])
     if kind in ("zfmt-mismatch", "zfmt-panic"):                    # backend x history phase x offset class
         return "C18:%s.%s.%s.%s" % (kind, cls[0], cls[1], cls[2])
+    # the time zone database the parsing process saw is part of the class when it is not the machine's own
+    env = ".tzdb-" + cls[4] if kind.startswith("parse-") and len(cls) > 4 and cls[4] != "host" else ""
     if kind == "parse-fail" and cls[1] != "full":
-        return "C18:parse-fail.%s.%s" % (cls[0], cls[1])          # backend x form
+        return "C18:parse-fail.%s.%s%s" % (cls[0], cls[1], env)          # backend x form (x environment)
     if kind.startswith("parse-"):
-        return "C18:%s.%s.%s.%s.%s" % (kind, cls[0], cls[1], cls[2], cls[3])
+        return "C18:%s.%s.%s.%s.%s%s" % (kind, cls[0], cls[1], cls[2], cls[3], env)
     return "C18:" + kind
 
 
@@ -93,6 +108,10 @@ def judge_replay(cases, by_case, stats):
                     stats["env_skipped"] += 1
                 elif r["st"] == "panic":
                     out.append((signature("fmt-panic", cls), dict(det, panic=r.get("msg"))))
+                elif not utc and not c["expr"]:
+                    # wall clock in year 10000: there is no expected string; what the produced string denotes is
+                    # judged by TLC (Trace_Dates!JudgeFmt) together with the recorded calls
+                    stats["to_tlc"].append(r)
                 elif r["s"] != want:
                     out.append((signature("fmt-mismatch", cls), dict(det, got=b2s(r["s"]))))
                 else:
@@ -100,12 +119,15 @@ def judge_replay(cases, by_case, stats):
             elif r["ev"] == "parse":
                 k = next((k for k, l in enumerate(c["lits"]) if l["s"] == r["in"]), None)
                 if k is None:
-                    stats["unjudged_strings"] += 1       # a string lopdf produced wrongly (reported by its fmt record)
+                    # a string lopdf produced wrongly (reported by its fmt record); or, for a pair without a date string
+                    # (no literals in the case), whatever was produced: nothing is demanded of reading those here
+                    stats["unjudged_strings" if c["expr"] else "strings_of_inexpressible_pairs"] += 1
                     continue
                 lit = c["lits"][k]
                 want = lit["want"]
-                cls = [r["p"]] + lit["cls"]
-                det = {"parser": r["p"], "input": b2s(r["in"]), "produced_by": r["srcs"],
+                cls = [r["p"]] + lit["cls"] + [r["tzdb"]]
+                stats["tzdb_judged"].add((r["tzdb"], r["p"], lit["cls"][0]))
+                det = {"parser": r["p"], "input": b2s(r["in"]), "produced_by": r["srcs"], "tzdb": r["tzdb"],
                        "expected": {"day": want["day"], "sod": want["sod"], "off": want["off"]}}
                 if not want["ok"] or not want["indom"]:
                     raise vlib.ToolError("generated literal is not a date in the domain: %s" % b2s(r["in"]))
@@ -124,13 +146,13 @@ def judge_replay(cases, by_case, stats):
                 else:
                     stats["parse_ok"] += 1
                     stats["pairs"].update((s, r["p"]) for s in r["srcs"])
-                if (r["st"] == "ok") != c["impl"][r["p"]][k] and not beyond(r, want):
+                if (r["st"] == "ok") != c["impl_nogmt" if r["tzdb"] == "one" else "impl"][r["p"]][k] and not beyond(r, want):
                     stats["model_drift"] += 1
     return out
 
 
 def to_cases(gen):
-    return [{"id": i, "day": g["day"], "sod": g["sod"], "off": g["off"], "fmt": True,
+    return [{"id": i, "day": g["day"], "sod": g["sod"], "off": g["off"], "fmt": True, "envs": g["envs"],
              "lits": [l["s"] for l in g["lits"]]} for i, g in enumerate(gen)]
 
 
@@ -142,8 +164,8 @@ def group(recs):
 
 
 def new_stats():
-    return {"na_skipped": 0, "env_skipped": 0, "fmt_ok": 0, "parse_ok": 0, "unjudged_strings": 0, "model_drift": 0,
-            "pairs": set(), "zone_env_skipped": 0, "zfmt_judged": 0, "zfmt_ok": {}}
+    return {"na_skipped": 0, "env_skipped": 0, "fmt_ok": 0, "parse_ok": 0, "unjudged_strings": 0, "strings_of_inexpressible_pairs": 0, "model_drift": 0,
+            "pairs": set(), "to_tlc": [], "tzdb_judged": set(), "zone_env_skipped": 0, "zfmt_judged": 0, "zfmt_ok": {}}
 
 
 def rule_tz(r):
@@ -216,19 +238,21 @@ def run(tier):
     # the design as the code is (Dev_h41 = FALSE since the fix: commit for the time backend: every form parses, no
     # counter-example); then, thorough only, the repaired defect seeded back (MC_Dates_seeded: the model must deviate
     # exactly on time x every form but the full one - ParseRefines/Deviates)
+    # (B) TLC's action coverage is collected on the same module with a handful of offsets (MC_Dates_cov: -coverage makes
+    # TLC re-evaluate the case sets, 70 s of start-up on the quick set); the case sets below exercise the same actions
+    rc = tlc("MC_Dates.tla", "MC_Dates_cov.cfg", workers=4, coverage=True, timeout=3000)
+    vlib.require_coverage(rc, ["CalYear", "Pick", "PickDirect", "Direct", "ConvertStep", "StripStep", "Attempt", "Done"])
+    chk.add_tlc(rc)
     runs = [("MC_Dates_quick.cfg", True)] + ([("MC_Dates_thorough.cfg", False)] if thorough else [])
     for cfg, cov in runs:
-        r = tlc("MC_Dates.tla", cfg, workers=16 if thorough else 4, coverage=cov, timeout=3000,
+        r = tlc("MC_Dates.tla", cfg, workers=16 if thorough else 4, coverage=False, timeout=3000,
                 xmx="8g" if thorough else "4g")
-        if cov:
-            vlib.require_coverage(r, ["CalYear", "Pick", "ConvertStep", "StripStep", "Attempt", "Done"])
         chk.add_tlc(r)
         gen = r.tagged("REPLAY")
         if not gen:
             raise vlib.ToolError("generator produced no cases")
         for g in gen:
-            g["str"], g["utc"] = g["lits"][0]["s"], g["lits"][2]["s"]
-            if g["lits"][0]["cls"][0] != "full" or g["lits"][2]["cls"][0] != "fullZ":
+            if g["expr"] and (g["lits"][0]["s"] != g["str"] or g["lits"][2]["s"] != g["utc"]):
                 raise vlib.ToolError("unexpected literal order in REPLAY record")
         # anti-vacuity of the generated set
         sweep_offs = {}
@@ -238,11 +262,20 @@ def run(tier):
         if not any(len(v) == 2879 for v in sweep_offs.values()):
             raise vlib.ToolError("vacuous: no instant with all 2879 offsets generated")
         need = {("negsub", "y4"), ("neg", "y4"), ("possub", "y4"), ("pos", "y4"), ("zero", "y4"), ("neg", "ylt1000"),
-                ("pos", "ylt1000")}
+                ("pos", "ylt1000"), ("negsub", "y0000"), ("neg", "y0000"), ("possub", "y10000"), ("pos", "y10000")}
         have = {tuple(g["cls_off"]) for g in gen}
+        edge_offs = {}
+        for g in gen:
+            if g["edge"]:
+                edge_offs.setdefault((g["day"], g["sod"]), set()).add(g["off"])
+        if len(edge_offs) != 2 or any(len(v) < (2879 if "thorough" in cfg else 300) for v in edge_offs.values()):
+            raise vlib.ToolError("vacuous: the first / last second of the domain are not swept over the offsets")
+        if not any(g["envs"] for g in gen):
+            raise vlib.ToolError("vacuous: no case marked for the time-zone-database environments")
         if not need <= have:
             raise vlib.ToolError("vacuous: generated cases miss classes %s" % sorted(need - have))
         if not any(b2s(g["str"]).startswith("D:20000229") for g in gen) or \
+           not any(b2s(g["str"]).startswith("D:0000") for g in gen) or \
            not any(b2s(g["utc"]).startswith("D:00010101") for g in gen) or \
            not any(b2s(g["utc"]).startswith("D:99991231") for g in gen):
             raise vlib.ToolError("vacuous: leap day / first / last day missing from the generated cases")
@@ -264,16 +297,19 @@ def run(tier):
                         "lopdf": {x["b"]: b2s(x["s"]) for x in by_case[len(gen) // 2]
                                   if x["ev"] == "fmt" and x["st"] == "ok"}})
             # (B) replay-side negative control: a corrupted expected string must be reported
-            bad = json.loads(json.dumps(gen[0]))
+            k0 = next(k for k, g in enumerate(gen) if g["expr"])
+            bad = json.loads(json.dumps(gen[k0]))
             bad["str"][16] = 45 if bad["str"][16] == 43 else 43
-            nb = judge_replay([bad], {0: by_case[0]}, new_stats())
+            nb = judge_replay([bad], {0: by_case[k0]}, new_stats())
             neg_rejected = 1 if any(s.startswith("C18:fmt-mismatch") for s, _ in nb) else 0
             if not neg_rejected:
                 raise vlib.ToolError("replay negative control not rejected")
     chk.exhaustive = True
     if thorough:
-        rr = tlc("MC_Dates.tla", "MC_Dates_seeded.cfg", workers=16, timeout=3000, name="MC_Dates_seeded")
-        chk.add_tlc(rr)
+        # the repaired defect h41 seeded back: exactly its deviation; and the design with the two open findings
+        # repaired (Dev_gmt = Dev_y10k = FALSE): no deviation at all
+        for cfg in ("MC_Dates_seeded.cfg", "MC_Dates_repaired.cfg"):
+            chk.add_tlc(tlc("MC_Dates.tla", cfg, workers=16, timeout=3000, name=cfg[:-4]))
     # ---------------------------------------------------------------- (M) + (G): local zones with a rule, history
     # one behaviour = one process converting a sequence of instants of a zone with a daylight-saving rule; the string
     # is a function of the instant and the rule, never of earlier calls
@@ -329,7 +365,7 @@ def run(tier):
     run_bin("c18", ["record", "--seed", vlib.seed(), "--n", n, "--out", tr])
     ztr = os.path.join(w, "ztrace.ndjson")
     run_bin("c18", ["zrecord", "--seed", vlib.seed(), "--n", 1500 if thorough else 64, "--out", ztr])
-    recs = read_ndjson(tr) + read_ndjson(ztr)
+    recs = read_ndjson(tr) + stats.pop("to_tlc") + read_ndjson(ztr)
     write_ndjson(tr, recs)
     okrecs = validate(chk, tr, recs, stats)
     nneg = 0
@@ -380,6 +416,12 @@ def run(tier):
                            for ph in ("first", "same", "changed")) if stats["zfmt_ok"].get(k, 0) < 10]
     if missing:
         vac.append("vacuous: conversions in a zone with a rule never accepted for %s" % missing)
+    tz_judged = stats.pop("tzdb_judged")
+    tz_missing = sorted((e, p_, f_) for e in ("host", "empty", "one") for p_ in ("chrono", "jiff", "time")
+                        for f_ in ("full", "fullZ", "min", "minZ", "date") if (e, p_, f_) not in tz_judged)
+    if tz_missing:
+        vac.append("vacuous: no parse judged for (time zone database, reader, form) %s" % tz_missing[:6])
+    chk.extra["tzdb_reader_form_classes_judged"] = len(tz_judged)
     pairs = stats.pop("pairs")
     want_pairs = {(s, p) for s in ("chrono_local", "chrono_utc", "jiff_zoned", "jiff_timestamp", "time_odt")
                   for p in ("chrono", "jiff")} | {(s, "time") for s in ("chrono_local", "jiff_zoned", "time_odt")}
@@ -425,6 +467,10 @@ def validate(chk, tr, recs, stats):
                 stats["zfmt_ok"][key] = stats["zfmt_ok"].get(key, 0) + 1
             elif kind == "ok-env-zone":
                 stats["zone_env_skipped"] += 1
+        if rec["ev"] == "parse" and v["cls"][1] != "none":
+            stats["tzdb_judged"].add((rec["tzdb"], rec["p"], v["cls"][1]))
+        if kind == "ok-inexpressible":
+            stats["inexpressible_ok"] = stats.get("inexpressible_ok", 0) + 1
         if kind == "spec-inconsistent":
             raise vlib.ToolError("Dates disagrees with itself on %s" % json.dumps(rec))
         if kind == "trace-order":
